@@ -14,7 +14,7 @@ import re
 from lib import core
 from lib.runner import PropertyCheck
 
-IMPORTS = ('From Coq Require Import List ZArith NArith String Ascii.\nFrom Xr Require Import Base.Show Ord.Derived Ord.Pad.\nImport ListNotations.\nOpen Scope Z_scope.\n'
+IMPORTS = ('From Coq Require Import List ZArith NArith String Ascii.\nFrom Xr Require Import Base.Show Ord.Derived Ord.Pad Ord.TimSort.\nImport ListNotations.\nOpen Scope Z_scope.\n'
            'Fixpoint show_codes (l : list N) : string := match l with nil => EmptyString | c :: r => String (ascii_of_N c) (show_codes r) end.\n'
            'Definition show_c (c : comparison) : string := match c with Lt => "-1"%string | Eq => "0"%string | Gt => "1"%string end.\n')
 
@@ -317,7 +317,9 @@ class C19(PropertyCheck):
                 term = f'show_list show_Z (isort Z.leb [{"; ".join(map(str, xs))}])'
             elif form == 'key':
                 e = f'{lit}.sort((a: int, b: int)->{{a % {m} - b % {m}}})'
-                term = f'show_list show_Z (isort (fun a b => Z.leb (a mod {m}) (b mod {m})) [{"; ".join(map(str, xs))}])'
+                # the model of the interpreter's own merge sort (Ord/TimSort.v; proved equal to isort) is what is evaluated here
+                term = (f'match tsort (fun a b => Z.leb (a mod {m}) (b mod {m})) [{"; ".join(map(str, xs))}] with '
+                        f'Some r => show_list show_Z r | None => "model-out-of-fuel"%string end')
             elif form == 'reverse':
                 e = f'{lit}.sort_reverse()'
                 term = f'show_list show_Z (rev (isort Z.leb [{"; ".join(map(str, xs))}]))'
